@@ -255,7 +255,17 @@ def locate_fn(m, spec):
     return cands[0]
 
 
-def weave_file(file, src, fnspecs, blockitems, canary=False, degrade=(), extern=()):
+def weave_file(file, src, fnspecs, blockitems, canary=False, degrade=(), extern=(), linemap=None):
+    _raw_line_of = rp.line_of
+
+    class _LM:
+        @staticmethod
+        def line_of(text, pos):
+            ln = _raw_line_of(text, pos)
+            if linemap is not None and text is src and 0 < ln <= len(linemap):
+                return linemap[ln - 1]
+            return ln
+    lm_ = _LM
     """src: extracted text of one file.  Returns Woven."""
     m = rp.mask(src)
     edits = []
@@ -324,7 +334,7 @@ def weave_file(file, src, fnspecs, blockitems, canary=False, degrade=(), extern=
                 raise Undecided('%s: @ret on a function without return type' % key)
             rt = src[f.ret_start:f.ret_end]
             add(f.ret_start, f.ret_end - f.ret_start, ' (%s: %s)%s' % (spec.ret, rt.strip(), '\n' if rt.endswith('\n') else ' '),
-                ('repo', file, rp.line_of(src, f.ret_start)))
+                ('repo', file, lm_.line_of(src, f.ret_start)))
         # signature clauses
         sig = []
         sig += clause_lines('requires', spec.requires, key, 'requires', spec.props, ind)
@@ -339,11 +349,11 @@ def weave_file(file, src, fnspecs, blockitems, canary=False, degrade=(), extern=
             chunks = [('\n', None)]
             text = '\n' + '\n'.join(t for t, _ in sig) + '\n' + ind
             # one edit per line so that origins are per clause
-            add(pos, 0, '\n', ('repo', file, rp.line_of(src, pos)))
+            add(pos, 0, '\n', ('repo', file, lm_.line_of(src, pos)))
             for t, cid in sig:
                 cl = clauses.get(cid)
                 add(pos, 0, t + '\n', ('contract', spec.vfile, cl.vline if cl else spec.vline, cid))
-            add(pos, 0, ind, ('repo', file, rp.line_of(src, pos)))
+            add(pos, 0, ind, ('repo', file, lm_.line_of(src, pos)))
         if not f.has_body:
             if spec.loops or spec.closures or spec.inserts:
                 raise Undecided('%s: body directives on a declaration' % key)
@@ -375,7 +385,7 @@ def weave_file(file, src, fnspecs, blockitems, canary=False, degrade=(), extern=
                 if lp.kind != 'for':
                     raise Undecided('%s: iter= on a non-for loop' % key)
                 im = re.compile(r'\bin\b').search(m, lp.kw, lp.open)
-                add(im.end(), 0, ' %s:' % L['iter'], ('repo', file, rp.line_of(src, im.end())))
+                add(im.end(), 0, ' %s:' % L['iter'], ('repo', file, lm_.line_of(src, im.end())))
             lkey = '%s#loop[%d]' % (key, L['n'])
             for c in L['invariants']:
                 c['vfile'] = spec.vfile
@@ -386,11 +396,11 @@ def weave_file(file, src, fnspecs, blockitems, canary=False, degrade=(), extern=
                 ll.append((lind + '    decreases ' + _join(L['decreases']['text']) + ',', cid))
             if ll:
                 pos = lp.open
-                add(pos, 0, '\n', ('repo', file, rp.line_of(src, pos)))
+                add(pos, 0, '\n', ('repo', file, lm_.line_of(src, pos)))
                 for t, cid in ll:
                     cl = clauses.get(cid)
                     add(pos, 0, t + '\n', ('contract', spec.vfile, cl.vline if cl else L['vline'], cid))
-                add(pos, 0, lind, ('repo', file, rp.line_of(src, pos)))
+                add(pos, 0, lind, ('repo', file, lm_.line_of(src, pos)))
         # closures
         closures = rp.find_closures(m, lo, hi)
         for ci, C in enumerate(spec.closures, 1):
@@ -425,11 +435,11 @@ def weave_file(file, src, fnspecs, blockitems, canary=False, degrade=(), extern=
                 pn = C['param'].split(':')[0].strip()
                 lm = re.match(r'(\{\s*let\s+.*?=\s*)p__\d+;', body, re.S)
                 if lm:
-                    add(cl.body_start + lm.end(1), len(ptxt), pn, ('repo', file, rp.line_of(src, cl.body_start)))
+                    add(cl.body_start + lm.end(1), len(ptxt), pn, ('repo', file, lm_.line_of(src, cl.body_start)))
             head = '|%s|' % newparam
             if C['ret']:
                 head += ' -> (%s)' % C['ret']
-            add(cl.bar1, cl.bar2 + 1 - cl.bar1, head, ('repo', file, rp.line_of(src, cl.bar1)))
+            add(cl.bar1, cl.bar2 + 1 - cl.bar1, head, ('repo', file, lm_.line_of(src, cl.bar1)))
             cind = ' ' * (cl.bar1 - (m.rfind('\n', 0, cl.bar1) + 1))
             for c in C['requires'] + C['ensures']:
                 c['vfile'] = spec.vfile
@@ -437,14 +447,14 @@ def weave_file(file, src, fnspecs, blockitems, canary=False, degrade=(), extern=
             ll += clause_lines('ensures', C['ensures'], ckey, 'ensures', spec.props, cind + '    ')
             pos = cl.body_start
             if ll:
-                add(pos, 0, '\n', ('repo', file, rp.line_of(src, pos)))
+                add(pos, 0, '\n', ('repo', file, lm_.line_of(src, pos)))
                 for t, cid in ll:
                     c0 = clauses.get(cid)
                     add(pos, 0, t + '\n', ('contract', spec.vfile, c0.vline if c0 else C['vline'], cid))
-                add(pos, 0, cind, ('repo', file, rp.line_of(src, pos)))
+                add(pos, 0, cind, ('repo', file, lm_.line_of(src, pos)))
             if m[cl.body_start] != '{':
-                add(cl.body_start, 0, '{ ', ('repo', file, rp.line_of(src, cl.body_start)))
-                add(cl.body_end, 0, ' }', ('repo', file, rp.line_of(src, cl.body_end)))
+                add(cl.body_start, 0, '{ ', ('repo', file, lm_.line_of(src, cl.body_start)))
+                add(cl.body_end, 0, ' }', ('repo', file, lm_.line_of(src, cl.body_end)))
         # line-anchored inserts
         body_lines = []
         p = lo
@@ -537,7 +547,7 @@ def weave_file(file, src, fnspecs, blockitems, canary=False, degrade=(), extern=
                 off = spos + sum(len(x) + 1 for x in parts[:k])
                 out_pos_map.append((off, len(w.lines) + 1))
                 if part.strip():
-                    cur_or.append(('repo', file, rp.line_of(src, off)))
+                    cur_or.append(('repo', file, lm_.line_of(src, off)))
             else:
                 if part.strip():
                     cur_or.append(origin)
@@ -576,7 +586,7 @@ def weave_file(file, src, fnspecs, blockitems, canary=False, degrade=(), extern=
         last = _scan(f.body_end)
         bfirst = _scan(f.sig_end) if f.has_body else last
         w.fn_ranges.append({'key': key, 'first': first, 'last': last, 'body_first': bfirst, 'has_body': f.has_body,
-                            'src_line': rp.line_of(src, f.kw), 'src_last': rp.line_of(src, f.body_end), 'file': file,
+                            'src_line': lm_.line_of(src, f.kw), 'src_last': lm_.line_of(src, f.body_end), 'file': file,
                             'contract': f.kw in contracted, 'name': f.name})
     if canary:
         for i, o in enumerate(w.origin):
